@@ -20,7 +20,7 @@ _qc = itertools.count(1)
 DSL_NAMES = {"forall", "exists", "forall_range", "exists_range", "forall_keys", "exists_key", "forall_int",
              "forall_of", "exists_of", "implies", "iff", "ite", "same", "type_is", "old", "pre", "dpos", "dpos_exact", "dsize",
              "opt_val", "str_of_int", "type_name", "str_of_type", "result_is_fresh", "uf", "fpow", "exc_arg", "calls", "call_kw", "call_pos", "call_seq",
-             "fcalls", "fcall_pos", "fcall_ret"}
+             "fcalls", "fcall_pos", "fcall_ret", "tcalls", "tcall_recv", "tcall_pos"}
 
 
 def _mentions_any(t) -> bool:
@@ -817,6 +817,24 @@ class DslMixin:
             if v is None:
                 return SV(None, T.NONE)  # the argument was not passed (or is not a value)
             return v
+        if name in ("tcalls", "tcall_recv", "tcall_pos"):
+            # the ghost call log queried by receiver TYPE: tcalls("Cursor", "execute") counts the logged calls of that
+            # method on any value of that opaque type; tcall_recv gives the receiver of the k-th (so that a contract
+            # can state which object it was - decided by the solver, not by syntactic comparison), tcall_pos its args
+            tname = ast.literal_eval(node.args[0])
+            meth = ast.literal_eval(node.args[1])
+            log = [r for r in self.st.__dict__.get("call_log", [])
+                   if r["recv"] is not None and r["ty"] == tname and r["method"] == meth]
+            if name == "tcalls":
+                return SV(z3.IntVal(len(log)), T.INT)
+            k = ast.literal_eval(node.args[2])
+            if not (0 <= k < len(log)):
+                return SV(None, T.NONE)
+            if name == "tcall_recv":
+                return SV(log[k]["recv"], T.Opaque(tname))
+            i = ast.literal_eval(node.args[3])
+            v = log[k]["args"][i] if i < len(log[k]["args"]) else None
+            return v if v is not None else SV(None, T.NONE)
         if name in ("fcalls", "fcall_pos", "fcall_ret"):
             # ghost log of calls to contracted repository functions (spec const LOGGED_FUNCTIONS)
             fname = ast.literal_eval(node.args[0])
